@@ -200,6 +200,19 @@ func (cc *checkCtx) run(writeBaseline bool) int {
 			}
 		}
 	}
+	if cc.prop == "C12" || cc.prop == "C17" {
+		rep := m.packageScan()
+		var keep []*Obligation
+		for _, o := range rep.Obligs {
+			for _, p := range o.Props {
+				if p == cc.prop {
+					keep = append(keep, o)
+				}
+			}
+		}
+		rep.Obligs = keep
+		reports = append(reports, rep)
+	}
 	if len(engineErrs) > 0 {
 		for _, e := range engineErrs {
 			fmt.Println("ENGINE-ERROR: contract does not evaluate:", e)
